@@ -19,6 +19,77 @@ def corpus_cases(pid):
     return out
 
 
+def lock_audit(repo):
+    """Which lock guards what (DESIGN 2.4).  Returns a list of problems.
+    - HostConnection._replace / return_connection: the close-or-trash decision about the OLD connection (`connection.close()`,
+      `self._trash.add/remove(connection)`) must sit inside `with connection.lock` (that very object: the function's parameter)
+      and `with self._lock`;
+    - Connection.process_msg: `self.in_flight -= 1` and `self.orphaned_request_ids.remove(...)` of the orphaned-stream phase must
+      sit in the same `with self.lock` block."""
+    import ast
+    probs = []
+
+    def withs_of(fn):
+        """[(node, [unparsed context exprs of the enclosing With statements, outermost first], [With nodes])]"""
+        out = []
+
+        def walk(n, stack, nodes):
+            for ch in ast.iter_child_nodes(n):
+                if isinstance(ch, ast.With):
+                    items = [ast.unparse(i.context_expr) for i in ch.items]
+                    walk(ch, stack + items, nodes + [ch])
+                else:
+                    out.append((ch, stack, nodes))
+                    walk(ch, stack, nodes)
+        walk(fn, [], [])
+        return out
+
+    def find_method(tree, cls, name):
+        for c in tree.body:
+            if isinstance(c, ast.ClassDef) and c.name == cls:
+                for m in c.body:
+                    if isinstance(m, ast.FunctionDef) and m.name == name:
+                        return m
+        return None
+    try:
+        ptree = ast.parse(open(os.path.join(repo, 'cassandra/pool.py')).read())
+        ctree = ast.parse(open(os.path.join(repo, 'cassandra/connection.py')).read())
+    except (OSError, SyntaxError) as e:
+        return ['cannot read source: %s' % e]
+    for meth in ('_replace', 'return_connection'):
+        fn = find_method(ptree, 'HostConnection', meth)
+        if fn is None:
+            probs.append('HostConnection.%s not found' % meth)
+            continue
+        old = fn.args.args[1].arg
+        seen = 0
+        for node, stack, _ in withs_of(fn):
+            if isinstance(node, ast.Call) and isinstance(node.func, ast.Attribute):
+                src = ast.unparse(node)
+                if src in ('%s.close()' % old, 'self._trash.add(%s)' % old, 'self._trash.remove(%s)' % old):
+                    seen += 1
+                    if ('%s.lock' % old) not in stack or 'self._lock' not in stack:
+                        probs.append('HostConnection.%s: `%s` is guarded by %s, not by `%s.lock` and `self._lock`' % (meth, src, stack or 'no lock', old))
+        if seen == 0:
+            probs.append('HostConnection.%s: no close-or-trash decision found' % meth)
+    fn = find_method(ctree, 'Connection', 'process_msg')
+    if fn is None:
+        probs.append('Connection.process_msg not found')
+    else:
+        dec = rem = None
+        for node, stack, nodes in withs_of(fn):
+            if isinstance(node, ast.AugAssign) and ast.unparse(node.target) == 'self.in_flight' and isinstance(node.op, ast.Sub):
+                dec = (stack, nodes)
+            if isinstance(node, ast.Call) and ast.unparse(node.func) == 'self.orphaned_request_ids.remove':
+                rem = (stack, nodes)
+        if dec is None or rem is None:
+            probs.append('Connection.process_msg: orphaned-stream decrement/removal not found')
+        elif not dec[1] or not rem[1] or dec[1][-1] is not rem[1][-1] or 'self.lock' not in dec[0]:
+            probs.append('Connection.process_msg: `self.in_flight -= 1` (under %s) and `self.orphaned_request_ids.remove` (under %s) '
+                         'are not in the same `with self.lock` block' % (dec[0] or 'no lock', rem[0] or 'no lock'))
+    return probs
+
+
 def coq_case(with_conn, mif, thr, hist, items):
     mx = min(mif - 1, 2 ** 15 - 1)
     return 'tr_eqb (trace %s %d %d %s) %s' % ('true' if with_conn else 'false', mx, thr, H.hist_coq(hist), H.trace_coq(items))
@@ -36,6 +107,11 @@ def run_pool_check(ctx, pid, n_quick, n_thorough, props, theorem_of_key):
     ctx.trust('correspondence harness lib/vf/pool_harness.py: hooking locks, fake session/cluster/executor, socket-less Connection subclass',
               'Connection summary (in_flight, orphaned ids, flags) is read from real cassandra.connection.Connection objects; '
               'ResponseFuture._on_timeout / Connection.process_msg regions are re-enacted by the harness')
+    probs = lock_audit(core.REPO)
+    ctx.extra['lock_audit'] = probs or 'ok: close-or-trash decisions under the old connection\'s lock and pool._lock; process_msg orphan phase in one locked block'
+    ctx.trust('lock audit (lib/vf/pool_check.py:lock_audit): which lock object guards the close-or-trash decision and the orphan phase of process_msg')
+    if probs:
+        ctx.proof_broken.append(('atomicity-audit', '; '.join(probs)))
     ctx.assume('each `with lock:` region and each unlocked statement group listed in docs/%s.md is one atomic step' % pid,
                'Connection.defunct() sets is_defunct and closes in one step; Condition.wait is "borrow not enabled"',
                'the unlocked `if self._connection: self._connection.close(); self._connection = None` of shutdown() is one step')
